@@ -24,7 +24,7 @@ P = "JanetModel.Props.C13."
 THEOREMS = [P + t for t in (
     "mul_chain_exact", "div_chain_exact", "neg_branch_at_least_4_digits", "msd_nonzero", "mant_estimate_sound",
     "scan_uint64_exact_or_rejected", "scan_int64_exact_or_rejected",
-    "extract_faithful_int", "extract_faithful_frac", "exact_when_representable", "within_one_ulp", "nearest_unique", "digit_table_correct", "ldexp_exact_normal",
+    "extract_faithful_int", "extract_faithful_frac", "exact_when_representable", "within_one_ulp", "nearest_unique", "digit_table_correct", "ldexp_exact_normal", "int_print_exact_to_2p53",
 )]
 
 ENV = dict(os.environ, ASAN_OPTIONS="detect_leaks=0:abort_on_error=0", UBSAN_OPTIONS="print_stacktrace=1")
@@ -135,6 +135,9 @@ def build_cases(ctx, scale):
     # printing
     for u in G.print_doubles(rng, int(25000 * scale)):
         cases.append(dict(line="p17 %016x" % u, kind="p17", bits=u))
+    pd = G.print_doubles(rng, int(9000 * scale))
+    for u in pd:
+        cases.append(dict(line="pstr %016x" % u, kind="pstr", bits=u))
     for u in G.int_doubles(rng, int(4000 * scale)):
         cases.append(dict(line="pint %016x" % u, kind="pint", bits=u))
     # internal state: digit array after the scaling loops
@@ -173,6 +176,17 @@ def oracle(c, res):
                 return "17-digit text is not a correct decimal of the double (python float() disagrees)"
         except ValueError:
             return "17-digit text unparsable"
+        return None
+    if k == "pstr":
+        # 15-digit default printing is lossy by design; the property only asks integers up to 2^53 to be exact
+        parts = res.split(" ")
+        if len(parts) != 2 or parts[0] != parts[1]:
+            return "string and describe disagree"
+        x = G.float_of_bits(c["bits"])
+        if x == int(x) and abs(x) <= 2 ** 53:
+            want = str(int(x)) if x != 0 else "0"
+            if parts[0] != want:
+                return "integer-valued double prints inexactly through string (expected %s)" % want
         return None
     if k == "pint":
         parts = res.split(" ")
